@@ -22,6 +22,7 @@ type C02Case struct {
 	Env   Envelope       `json:"env,omitempty"` // irrelevant options / table representation / repeated execution
 	Items []SelItem      `json:"items"`
 	Star  int            `json:"star"` // 0 none, 1 leading *, 2 trailing *
+	Scale *Scale         `json:"scale,omitempty"` // large table: t is expanded from the rows of the document by this recipe before anything is computed
 	Where *sq.E          `json:"where,omitempty"`
 	SQL   string         `json:"sql"`
 }
@@ -32,7 +33,7 @@ func init() {
 		Title: "Projection emits one row per kept row with correctly computed columns",
 		Rule: "rapid draws a typed table (non-negative int, int, fractional, non-zero, nullable numeric, string, bool and object columns; 0-8 rows) " +
 			"and a select list of 1-5 typed expression trees (depth<=4) over + - * / DIV % & | ^ << >>, unary - ~ !, comparisons, CASE WHEN, " +
-			"literals, column and nested-path references (incl. missing keys), optional * and optional WHERE; a third of the aliases are spelled like source columns; a quarter of the lists carry an item whose value depends on the prescribed nesting of + or * (cancellation, overflow, absorption), a quarter an equality on a key some rows lack as CASE condition; oracle = independent reference " +
+			"literals, column and nested-path references (incl. missing keys), optional * and optional WHERE; about 2.5% of the cases run on a large table (200-700 rows of any residue, the drawn rows repeated in a drawn arrangement); a third of the aliases are spelled like source columns; a quarter of the lists carry an item whose value depends on the prescribed nesting of + or * (cancellation, overflow, absorption), a quarter an equality on a key some rows lack as CASE condition; oracle = independent reference " +
 			"evaluator on float64: row count, exact key set and values per row. Non-trivial: >=1 output row and >=1 operator node. " +
 			"Distinct = distinct JSON encodings of (doc, select list, where).",
 		Assumptions: []string{
@@ -200,6 +201,11 @@ func genC02(t *rapid.T) any {
 	if rapid.IntRange(0, 2).Draw(t, "haswhere") == 0 {
 		c.Where = pt.genBoolExpr(t, 1, "w")
 	}
+	// scale: one output object per kept row, whatever the size of the table
+	c.Scale = genScale(t, 20, "scale")
+	if rows, _ := c.Doc["t"].([]any); len(rows) == 0 {
+		c.Scale = nil
+	}
 	c.SQL = "SELECT " + renderSelect(c.Items, c.Star, nil) + " FROM t"
 	if c.Where != nil {
 		c.SQL += " WHERE " + sq.Render(c.Where, nil)
@@ -298,6 +304,13 @@ func discardOrHarness(res *Result, err error) {
 
 func checkC02(c *C02Case) Result {
 	res := Result{}
+	if c.Scale != nil {
+		cc := *c
+		cc.Doc, cc.Scale = c.Scale.ExpandDoc(c.Doc, "t"), nil
+		res = checkC02(&cc)
+		res.Labels = append(res.Labels, "large-table")
+		return res
+	}
 	rows, _ := c.Doc["t"].([]any)
 	want, err := refProject(rows, c.Items, c.Star, c.Where, &sq.Env{Doc: c.Doc})
 	if err != nil {
@@ -334,12 +347,15 @@ func checkC02(c *C02Case) Result {
 	if c.Where != nil {
 		res.Labels = append(res.Labels, "where")
 	}
+	if len(want) >= 200 {
+		res.Labels = append(res.Labels, fmt.Sprintf("kept-rows>=200:mod-4=%d", len(want)%4))
+	}
 	res.NonTrivial = len(want) >= 1 && ops >= 1
 
 	out := c.Env.Exec(val.CopyMap(c.Doc), c.SQL)
 	res.Execs++
 	if !out.OK() {
-		res.Violation = fmt.Sprintf("%s\n  expected rows %s\n  got %s", c.SQL, val.JSON(want), out.Describe())
+		res.Violation = fmt.Sprintf("%s\n  expected rows %s\n  got %s", c.SQL, rowsText(want), out.Describe())
 		return res
 	}
 	d := diffRows(out.Rows, want)
@@ -355,9 +371,17 @@ func checkC02(c *C02Case) Result {
 		}
 	}
 	if d != "" {
-		res.Violation = fmt.Sprintf("%s\n  %s\n  expected rows %s\n  got      rows %s", c.SQL, d, val.JSON(want), val.JSON(out.Rows))
+		res.Violation = fmt.Sprintf("%s\n  %s\n  expected rows %s\n  got      rows %s", c.SQL, d, rowsText(want), rowsText(out.Rows))
 	}
 	return res
+}
+
+// rowsText renders rows for a message; of a long sequence only both ends are shown (the case file has it all).
+func rowsText(rows []any) string {
+	if len(rows) <= 60 {
+		return val.JSON(rows)
+	}
+	return fmt.Sprintf("%d rows: first 5 %s ... last 5 %s", len(rows), val.JSON(rows[:5]), val.JSON(rows[len(rows)-5:]))
 }
 
 func dedup(xs []string) []string {
